@@ -4,7 +4,7 @@
 ID=$1; WT=/tmp/refac/$ID; OUT=/tmp/refac/$ID-out
 ALL="C01 C02 C03 C04 C05 C06 C07 C08 C09 C10 C11 C12 C13 C14 C15 C16 C17 C18 C19 C20"
 for p in $OUT/r*.diff; do
-  (cd $WT && git reset -q --hard HEAD && git clean -fdxq && git apply $p) || { echo "$ID $(basename $p): DOES NOT APPLY"; continue; }
+  (cd $WT && git reset -q --hard HEAD && git clean -fdxq && (git apply $p || git apply --3way $p)) || { echo "$ID $(basename $p): DOES NOT APPLY"; continue; }
   res=$(cd /verif && PGCHECK_REPO=$WT PGCHECK_EVID=/tmp/refac/$ID-evid PGCHECK_CACHE_KEEP=40 ./check $ALL 2>&1 | grep -E "^C[0-9]+\.R|^VIOLATION|error\[|Traceback" | cut -c1-260)
   if [ -z "$res" ]; then echo "$ID $(basename $p): silent"; else echo "$ID $(basename $p): ALARM"; echo "$res"; fi
 done
